@@ -1674,12 +1674,16 @@ class sptensor:
             keep_modes = np.array([], dtype=int)
         else:
             old_modes = np.atleast_1d(old_modes)
+            if np.any(old_modes < 0) or np.any(old_modes >= self.ndims):
+                assert False, "Invalid old_modes: mode numbers must be in 0..ndims-1"
             keep_modes = np.setdiff1d(np.arange(0, self.ndims, dtype=int), old_modes)
 
         shapeArray = np.array(self.shape)
         old_shape = shapeArray[old_modes]
         keep_shape = shapeArray[keep_modes]
         new_shape = parse_shape(new_shape)
+        if any(d < 0 for d in new_shape):
+            assert False, "Reshape sizes must be non-negative"
 
         if prod(new_shape) != prod(old_shape):
             assert False, "Reshape must maintain tensor size"
